@@ -29,6 +29,16 @@ func verifC01Check(d *verifData, x verifExpr) {
 		if err == nil {
 			verifAssert(res.Count == verifCard(x.den), "C01: total count differs from the number of rows satisfying the expression")
 		}
+		// the same question again, and every stored value on its own: evaluating a query must
+		// not have altered what the index holds (preloaded bitmaps in particular)
+		res2, err2 := idx.Execute(&Query{Expr: x.e})
+		verifAssert(err2 == nil && res2 != nil && res2.Count == verifCard(x.den), "C01: the same query on the same index returned another count the second time")
+		for ci, col := range d.cols {
+			for vi, val := range d.vals[ci] {
+				r, e := idx.Execute(&Query{Expr: &ExprEqual{Column: col, Value: val}})
+				verifAssert(e == nil && r != nil && r.Count == verifCard(d.sets[ci][vi]), "C01: evaluating a query altered the rows a stored value holds for")
+			}
+		}
 	}
 	if err := idx.Close(); err != nil {
 		verifAssert(false, "C01: Close failed")
